@@ -8,6 +8,9 @@ Inductive invariant proof over the SpectralInformation API:
                   update; every method that writes only the power is a pure per-channel scaling
  R4 reported    : gsnr = S/(A+N), snr_lin = S/A, snr_nli = S/N (=> the reciprocal identity as a polynomial identity),
                   the *_db / opt_* getters, and the Transceiver attribute <-> getter pairing
+ R5 split/merge : band mux folds the WHOLE list, demux selects whole channels by the in-band test (shared with C07-R2)
+ R6 published   : the figures published after adding transmitter / add-drop noise receive one common added-noise term
+                  computed from the RAW figures, so the identity survives update_snr (shared with C13-R2)
 """
 import ast
 
